@@ -165,6 +165,72 @@ def StackNil : Option (St × Nat) → Prop
   | none => True
   | some r => r.1.stack = []
 
+theorem lookup_mem {α β : Type} [BEq α] : ∀ (l : List (α × β)) (k : α) (v : β), l.lookup k = some v → ∃ k', (k', v) ∈ l := by
+  intro l
+  induction l with
+  | nil => intro k v h; simp [List.lookup] at h
+  | cons e es ih =>
+    intro k v h
+    obtain ⟨k0, v0⟩ := e
+    simp only [List.lookup] at h
+    split at h
+    · injection h with h; subst h; exact ⟨k0, List.mem_cons_self⟩
+    · obtain ⟨k', hk'⟩ := ih k v h
+      exact ⟨k', List.mem_cons_of_mem _ hk'⟩
+
+theorem applyPair_safe (st : St) (a p : Nat) (g1 g2 : Glyph) (pa : PairAdj)
+    (hok : pairOk (some pa) = true) (hst : st.stack = []) : Safe StackNil (applyPair st a p g1 g2 pa) := by
+  simp only [pairOk, Bool.and_eq_true] at hok
+  unfold applyPair
+  refine Safe.bind (applyValue_safe hok.1 g1) ?_
+  intro g1' _ _
+  split
+  · exact hst
+  · rename_i v hv
+    refine Safe.bind (applyValue_safe (by rw [← hv]; exact hok.2) g2) ?_
+    intro g2' _ _
+    exact hst
+
+theorem findBase_some (cov : Cov) : ∀ (l : List Glyph) (acc : Int) (bi : Nat) (s : Int),
+    findBase cov l acc = some (bi, s) → ∃ g, covGet cov g = some bi := by
+  intro l
+  induction l with
+  | nil => intro acc bi s h; simp [findBase] at h
+  | cons g rest ih =>
+    intro acc bi s h
+    simp only [findBase] at h
+    split at h
+    · rename_i i hi
+      injection h with h; injection h with h1 h2; subst h1
+      exact ⟨_, hi⟩
+    · exact ih _ _ _ h
+
+theorem applyMark_safe (add : Bool) (st : St) (a : Nat) (markCov baseCov : Cov) (marks : List MarkRec)
+    (bases : List (List Anchor)) (hm : covBelow markCov marks.length = true)
+    (hb : covBelow baseCov bases.length = true) (ha : a < st.seq.length) (hst : st.stack = []) :
+    Safe StackNil (applyMark add st a markCov baseCov marks bases) := by
+  unfold applyMark
+  refine Safe.bind (idx_safe ha) ?_
+  intro g _ _
+  split
+  · trivial
+  · rename_i mi hmi
+    refine Safe.bind (idx_safe (covBelow_lt hm hmi)) ?_
+    intro mr _ _
+    split
+    · trivial
+    · split
+      · trivial
+      · rename_i bi advs hfb
+        obtain ⟨g0, hg0⟩ := findBase_some _ _ _ _ _ hfb
+        refine Safe.bind (idx_safe (covBelow_lt hb hg0)) ?_
+        intro row _ _
+        split
+        · trivial
+        · split
+          · trivial
+          · exact hst
+
 theorem applySub_safe (kp : Nat → Bool) (st : St) (a : Nat) (s : Subtable)
     (hg : s.guarded = true) (hs : s.contextual = false) (ha : a < st.seq.length) (hst : st.stack = []) :
     Safe StackNil (applySub kp st a st.seq.length s) := by
@@ -272,6 +338,95 @@ theorem applySub_safe (kp : Nat → Bool) (st : St) (a : Nat) (s : Subtable)
       refine Safe.bind (applyValue_safe hvok g) ?_
       intro g' _ _
       exact hst
+  | gpos21 pairs =>
+    simp only [Subtable.guarded] at hg
+    simp only [applySub]
+    refine Safe.bind (idx_safe ha) ?_
+    intro g1 _ _
+    refine Safe.bind (skipFwd_drop_safe kp st.seq (a + 1) _ 0 hlim) ?_
+    intro p _ _
+    split
+    · trivial
+    · rename_i hp
+      refine Safe.bind (idx_safe (by omega)) ?_
+      intro g2 _ _
+      split
+      · trivial
+      · rename_i hl
+        obtain ⟨k', hk'⟩ := lookup_mem _ _ _ hl
+        have := List.all_eq_true.mp hg _ hk'
+        simp [pairOk] at this
+      · rename_i pa hl
+        obtain ⟨k', hk'⟩ := lookup_mem _ _ _ hl
+        exact applyPair_safe st a p g1 g2 pa (List.all_eq_true.mp hg _ hk') hst
+  | gpos22 cov cls1 cls2 adj =>
+    simp only [Subtable.guarded] at hg
+    simp only [applySub]
+    refine Safe.bind (idx_safe ha) ?_
+    intro g1 _ _
+    split
+    · trivial
+    · refine Safe.bind (skipFwd_drop_safe kp st.seq (a + 1) _ 0 hlim) ?_
+      intro p _ _
+      split
+      · trivial
+      · rename_i hp
+        refine Safe.bind (idx_safe (by omega)) ?_
+        intro g2 _ _
+        split
+        · trivial
+        · rename_i row hrow
+          have hrowok := List.all_eq_true.mp hg row (List.mem_of_getElem? hrow)
+          split
+          · trivial
+          · rename_i hx
+            have := List.all_eq_true.mp hrowok _ (List.mem_of_getElem? hx)
+            simp [pairOk] at this
+          · rename_i pa hx
+            exact applyPair_safe st a p g1 g2 pa (List.all_eq_true.mp hrowok _ (List.mem_of_getElem? hx)) hst
+  | gpos31 cov recs =>
+    simp only [Subtable.guarded] at hg
+    simp only [applySub]
+    refine Safe.bind (idx_safe ha) ?_
+    intro g _ _
+    split
+    · trivial
+    · rename_i i hi
+      refine Safe.bind (idx_safe (covBelow_lt hg hi)) ?_
+      intro r _ _
+      refine Safe.bind (Q := fun _ => True) ?_ ?_
+      · split
+        · refine Safe.bind (idx_safe (by omega)) ?_
+          intro prev _ _
+          split
+          · trivial
+          · rename_i pi hpi
+            refine Safe.bind (idx_safe (covBelow_lt hg hpi)) ?_
+            intro pr _ _
+            trivial
+        · trivial
+      · intro yo _ _
+        refine Safe.bind (Q := fun _ => True) ?_ ?_
+        · split
+          · refine Safe.bind (idx_safe (by omega)) ?_
+            intro nx _ _
+            split
+            · trivial
+            · rename_i ni hni
+              refine Safe.bind (idx_safe (covBelow_lt hg hni)) ?_
+              intro nr _ _
+              trivial
+          · trivial
+        · intro ad _ _
+          exact hst
+  | gpos41 markCov baseCov marks bases =>
+    simp only [Subtable.guarded, Bool.and_eq_true] at hg
+    simp only [applySub]
+    exact applyMark_safe true st a _ _ _ _ hg.1 hg.2 ha hst
+  | gpos61 markCov baseCov marks bases =>
+    simp only [Subtable.guarded, Bool.and_eq_true] at hg
+    simp only [applySub]
+    exact applyMark_safe false st a _ _ _ _ hg.1 hg.2 ha hst
 
 theorem applyAt_safe (kp : Nat → Bool) (st : St) (a : Nat) (ha : a < st.seq.length) (hst : st.stack = []) :
     ∀ (ss : List Subtable), (ss.all Subtable.guarded = true) → (ss.all (fun s => !s.contextual) = true) →
